@@ -32,6 +32,9 @@ def mech_stages(res, prop):
         runner.apalache_stage(res, module, inv)
 
 
+SUITE_OPS = {"C02": "getitem", "C03": "setitem", "C04": "ufunc"}      # calls of the repository's own suite re-judged by TLC
+
+
 def _ragged_check(prop, strict, n_quick, n_thorough, text, rule):
     def run():
         t = Timer()
@@ -39,6 +42,8 @@ def _ragged_check(prop, strict, n_quick, n_thorough, text, rule):
         mech_stages(res, prop)
         runner.model_stage(res, prop, "ragged", "MC_" + prop, strict=strict)
         runner.trace_stage(res, prop, "ragged", "drivers_ragged", "Trace_Ragged", n_quick if Q else n_thorough)
+        if prop in SUITE_OPS:
+            runner.suite_trace_stage(res, prop, SUITE_OPS[prop])
         return runner.finish(res, text, rule, A_REGIME, t.s())
     return run
 
